@@ -2,6 +2,7 @@
 from __future__ import annotations
 
 import ast
+import copy
 from typing import Callable, Dict, FrozenSet, Iterable, Iterator, List, Optional, Sequence, Set, Tuple
 
 from .calls import Calls, walk_shallow_stmts
@@ -32,10 +33,16 @@ def calls_in_func(func: FuncInfo, name: Optional[str] = None) -> List[ast.Call]:
 
 
 def call_sites(prog: Program, name: str) -> List[Tuple[FuncInfo, ast.Call]]:
+    """Every call of ``name`` -- over the helper-inlined views: a call made inside a private helper that is inlined at all its call sites is a
+    call of each of its callers, not of the helper."""
     out = []
+    sub = subsumed_helpers(prog) if getattr(prog, 'inliner', None) is not None else set()
     for f in prog.all_funcs():
-        for c in calls_in_func(f, name):
-            out.append((f, c))
+        if id(f.node) in sub:
+            continue
+        v = prog.view(f) if getattr(prog, 'inliner', None) is not None else f
+        for c in calls_in_func(v, name):
+            out.append((v, c))
     return out
 
 
@@ -456,6 +463,8 @@ def caught_exception_args(func: FuncInfo, call: ast.Call, args: Sequence[ast.exp
     res = Resolver(func)
     texts = [res.text(a.value if isinstance(a, ast.Starred) else a) for a in args]
     starred = [isinstance(a, ast.Starred) for a in args]
+    # an element of the slice is an element of the triple: ``sys.exc_info()[1:][0]`` is ``sys.exc_info()[1]``
+    texts = [t.replace('sys.exc_info()[1:][0]', 'sys.exc_info()[1]').replace('sys.exc_info()[1:][1]', 'sys.exc_info()[2]') for t in texts]
     if len(args) == 1 and starred[0] and texts[0] == 'sys.exc_info()[1:]':
         return True
     if len(args) == 2 and not any(starred):
@@ -541,3 +550,112 @@ def _possible_atoms(ff: FuncFacts, e: ast.expr, truth: bool) -> Set[Atom]:
             out |= _possible_atoms(ff, v, truth)
         return out
     return ff.cond_atoms(e2, truth)
+
+
+def action_built_for(ctx: Ctx, cia: FuncInfo, interruption_cls: str):
+    """In ``_create_interrupt_action``: the ``CancellableAction(<callable>, cookie=...)`` built when the exception IS a ``interruption_cls`` -- on every
+    path of the decision table over the isinstance tests (an if/elif ladder with early returns, or branches that pick the callable into a local and one
+    constructor call at the end, are the same thing).  Returns (constructor call, callable expression with locals followed, cookie text) per path."""
+    from .decisions import leaf, paths_under, value_on_path
+    ff = ctx.facts.analyse(cia)
+    exc_param = cia.params[1] if len(cia.params) > 1 else 'exception'
+    tests = {}
+    for t in ff.cfg.nodes:
+        if t.kind == 'test':
+            for x in ast.walk(t.ast.test):
+                if isinstance(x, ast.Call) and isinstance(x.func, ast.Name) and x.func.id == 'isinstance' and len(x.args) == 2 and norm(x.args[0]) == exc_param:
+                    tests[norm(x.args[1]).split('.')[-1]] = leaf(ff, x)[0]
+    if interruption_cls not in tests:
+        return []
+    val = {k: (name == interruption_cls) for name, k in tests.items()}
+    out = []
+    for path in paths_under(ff, val, frozen=[exc_param]):
+        if path[-1] is not ff.cfg.exit:
+            continue
+        hits = [(i, c) for i, m in enumerate(path) for c in ([x for x in walk_shallow(m.expr()) if isinstance(x, ast.Call)] if m.expr() is not None else []) if last_name(c) == 'CancellableAction']
+        if not hits:
+            out.append((None, None, None))
+            continue
+        i, c = hits[-1]
+        fn = value_on_path(path, i, c.args[0]) if c.args else None
+        cookie = next((norm(value_on_path(path, i, k.value)) for k in c.keywords if k.arg == 'cookie'), None)
+        out.append((c, fn, cookie))
+    return out
+
+
+# ---------------------------------------------------------------------- a sequence built by a comprehension or by an accumulation loop
+class Built:
+    """``initial`` elements followed by ``elt`` for every binding of the ``gens`` (target, iterable, filters) -- the one
+    description of ``[e for t in it if c]``, ``(a, *[e for ...])``, ``tuple(acc)`` and
+    ``acc = [a]; for t in it: if c: acc.append(e); return acc``."""
+
+    def __init__(self, initial: List[ast.expr], gens: List[Tuple[ast.expr, ast.expr, List[ast.expr]]], elt: Optional[ast.expr]):
+        self.initial, self.gens, self.elt = initial, gens, elt
+
+    def filters(self, rename_to: str = '<item>') -> List[str]:
+        """Filter texts with the innermost loop variable renamed, so that the spelling of the variable does not matter."""
+        if not self.gens:
+            return []
+        tgt = self.gens[-1][0]
+        out = []
+        for _, _, ifs in self.gens:
+            for c in ifs:
+                c = copy.deepcopy(c)
+                if isinstance(tgt, ast.Name):
+                    for n in ast.walk(c):
+                        if isinstance(n, ast.Name) and n.id == tgt.id:
+                            n.id = rename_to
+                out.append(norm(c))
+        return out
+
+
+def built_sequence(func: FuncInfo) -> Optional[Built]:
+    body = [s for s in func.node.body if not (isinstance(s, ast.Expr) and isinstance(s.value, ast.Constant))]
+    rets = [s for st in func.node.body for s in walk_shallow_stmts(st) if isinstance(s, ast.Return)]
+    if len(rets) != 1 or rets[0].value is None or not body or body[-1] is not rets[0]:
+        return None
+    v = strip_cast(rets[0].value)
+    while isinstance(v, ast.Call) and norm(v.func) in ('tuple', 'list') and len(v.args) == 1 and not v.keywords:
+        v = strip_cast(v.args[0])
+
+    def comp(c) -> Optional[Built]:
+        if isinstance(c, (ast.ListComp, ast.GeneratorExp)):
+            return Built([], [(g.target, g.iter, list(g.ifs)) for g in c.generators], c.elt)
+        return None
+    if comp(v) is not None:
+        return comp(v)
+    if isinstance(v, (ast.Tuple, ast.List)):
+        initial: List[ast.expr] = []
+        for i, e in enumerate(v.elts):
+            if isinstance(e, ast.Starred):
+                b = comp(strip_cast(e.value))
+                if b is None or i != len(v.elts) - 1:
+                    return None
+                return Built(initial, b.gens, b.elt)
+            initial.append(e)
+        return Built(initial, [], None)
+    if not isinstance(v, ast.Name):
+        return None
+    acc = v.id
+    inits = [s for s in body if isinstance(s, (ast.Assign, ast.AnnAssign)) and norm(s.targets[0] if isinstance(s, ast.Assign) else s.target) == acc]
+    loops = [s for s in body if isinstance(s, ast.For)]
+    uses = [n for n in ast.walk(func.node) if isinstance(n, ast.Name) and n.id == acc]
+    if len(inits) != 1 or len(loops) != 1 or len(uses) != 3 or not isinstance(strip_cast(inits[0].value), ast.List):
+        return None
+    if any(isinstance(e, ast.Starred) for e in strip_cast(inits[0].value).elts):
+        return None
+    gens: List[Tuple[ast.expr, ast.expr, List[ast.expr]]] = []
+    cur: ast.stmt = loops[0]
+    while True:
+        if isinstance(cur, ast.For) and not cur.orelse and len(cur.body) == 1:
+            gens.append((cur.target, cur.iter, []))
+            cur = cur.body[0]
+        elif isinstance(cur, ast.If) and not cur.orelse and len(cur.body) == 1 and gens:
+            gens[-1][2].append(cur.test)
+            cur = cur.body[0]
+        else:
+            break
+    if (isinstance(cur, ast.Expr) and isinstance(cur.value, ast.Call) and norm(cur.value.func) == f'{acc}.append' and len(cur.value.args) == 1
+            and not cur.value.keywords and gens):
+        return Built(list(strip_cast(inits[0].value).elts), gens, cur.value.args[0])
+    return None
